@@ -68,9 +68,11 @@ func AsyncMapReduce[T, P, A any](
 			case res := <-resChan:
 				acc = reduceFunc(acc, res)
 				wg.Done()
+				simhook.Yield("amr.reduced")
 			case err := <-errChan:
 				errs = gqlerrors.ExtendErrorList(errs, err)
 				wg.Done()
+				simhook.Yield("amr.reduced")
 			case <-doneChan:
 				return
 			}
